@@ -20,6 +20,10 @@ LEVEL = "model_checking"
 
 INDEX = 0x2003
 SUB = 5
+# addresses (index, subindex): subindex 0 (VAR objects keep their value there), 1 (where complete
+# access starts), the largest, ordinary ones; smallest / largest / typical indices
+ADDRS = [(0x2003, 5), (0x8010, 0), (0x1C12, 1), (0xFFFF, 255), (0x1000, 0), (0x6000, 2), (0x0001, 254)]
+NEIGHBOUR = bytes([0xa5, 0x5a, 0xa5])
 CHUNK = 900
 SLOTS = {"plain": {}, "d1": {"delay": 1}, "d2": {"delay": 2}, "eoe": {"mail": ["eoe"]},
          "emcy": {"mail": ["emcy"]}, "both": {"mail": ["eoe", "emcy"]},
@@ -44,9 +48,16 @@ def transfer(case):
     data = bytes(case["data"]) if "data" in case else value(n, case.get("salt", 0))
     srv0 = data if op == "up" else bytes([0xee, 0xdd])
     term = make_terminal(case["mbxout"], case["mbxin"])
-    sub = 1 if ca else SUB
+    index = case.get("index", INDEX)
+    subx = case.get("sub", SUB)           # used unless complete access
+    sub = 1 if ca else subx
     script = [SLOTS[k] for k in case["script"]]
-    srv = coeserver.SdoServer(term, {(INDEX, ca, sub): srv0}, script)
+    # the terminal also holds the neighbouring entries, so that a transfer sent to the wrong
+    # address lands somewhere instead of being refused
+    od = {(index, False, x): NEIGHBOUR for x in {0, 1, 2, sub - 1, sub + 1} if 0 <= x <= 255}
+    od.update({(index, True, 1): NEIGHBOUR, (index ^ 1, False, sub): NEIGHBOUR})
+    od[(index, ca, sub)] = srv0
+    srv = coeserver.SdoServer(term, od, script)
     term.mbx_server = srv
     out = {}
 
@@ -59,13 +70,13 @@ def transfer(case):
         t.parse_sync_managers(bytes(term.mem[0x800:0x810]))
         try:
             if op == "up":
-                r = await t.sdo_read(INDEX, None if ca else SUB)
+                r = await t.sdo_read(index, None if ca else subx)
                 if not isinstance(r, (bytes, bytearray)):
                     out.update(res="ok", value=[-1], exc=f"returned {type(r).__name__}")
                 else:
                     out.update(res="ok", value=list(r))
             else:
-                await t.sdo_write(data, INDEX, None if ca else SUB)
+                await t.sdo_write(data, index, None if ca else subx)
                 out.update(res="ok", value=[])
         except Exception as e:
             out.update(res="raise", value=[], exc=f"{type(e).__name__}: {e}"[:200])
@@ -80,8 +91,10 @@ def transfer(case):
     ev = [dict(ev="start", op=op, data=list(data) if op == "down" else [])]
     for e in srv.log:
         ev.append(dict(ev=e["dir"], m=e["m"]))
-    ev.append(dict(ev="end", out=out, srvval=list(srv.od[(INDEX, ca, sub)])))
-    return dict(obj=dict(index=INDEX, ca=ca, sub=sub, mbxout=case["mbxout"], mbxin=case["mbxin"]),
+    ev.append(dict(ev="end", out=out, srvval=list(srv.od[(index, ca, sub)]),
+                   others_changed=sorted(f"{k[0]:04X}:{'CA' if k[1] else ''}{k[2]:02X}" for k, v in srv.od.items()
+                                         if k != (index, ca, sub) and v != NEIGHBOUR)))
+    return dict(obj=dict(index=index, ca=ca, sub=sub, mbxout=case["mbxout"], mbxin=case["mbxin"]),
                 val0=list(srv0), ev=ev)
 
 
@@ -123,12 +136,21 @@ def make_cases(ctx, scripts):
     """deterministic grid (gating) plus a few random cases from ctx.rng"""
     per = 1 if ctx.quick else 3
     cases = []
-    rot = 0
+    rot = arot = 0
+    # every address x every kind of transfer (nothing / expedited / one message / segmented)
+    for index, sub in ADDRS:
+        for n in (0, 1, 4, 5, 16, 17, 40, 70):
+            for op in ("up", "down"):
+                for ca in (False, True):
+                    cases.append(dict(op=op, ca=ca, n=n, mbxout=32, mbxin=32, index=index, sub=sub,
+                                      script=["plain"] * len(scripts[0])))
     for mbo, mbi, lens in grid(ctx.quick):
         for n in lens:
             for op in ("up", "down"):
                 for ca in (False, True):
-                    base = dict(op=op, ca=ca, n=n, mbxout=mbo, mbxin=mbi)
+                    index, sub = ADDRS[arot % len(ADDRS)]
+                    arot += 1
+                    base = dict(op=op, ca=ca, n=n, mbxout=mbo, mbxin=mbi, index=index, sub=sub)
                     cases.append(dict(base, script=["plain"] * len(scripts[0])))
                     for _ in range(per):
                         cases.append(dict(base, script=scripts[rot % len(scripts)]))
@@ -138,6 +160,8 @@ def make_cases(ctx, scripts):
         n = ctx.rng.randrange(0, 3 * max(mbo, mbi) + 1)
         cases.append(dict(op=ctx.rng.choice(["up", "down"]), ca=ctx.rng.random() < 0.5, n=n,
                           mbxout=mbo, mbxin=mbi, script=ctx.rng.choice(scripts),
+                          index=ctx.rng.choice([ctx.rng.randrange(1, 0x10000), 0x1000, 0xFFFF]),
+                          sub=ctx.rng.choice([0, 0, 1, 255, ctx.rng.randrange(256)]),
                           data=[ctx.rng.randrange(256) for _ in range(n)], random=True))
     return cases
 
@@ -159,6 +183,7 @@ def describe(case, tr):
              emergency=any(k in ("emcy", "both") for k in used),
              server_abort=any(e["m"].get("kind") == "abort" for e in tr["ev"] if e["ev"] == "s2c"),
              outcome=out.get("res"), exc=out.get("exc", ""),
+             others_changed=tr["ev"][-1].get("others_changed", []),
              requests=sum(1 for e in tr["ev"] if e["ev"] == "c2s"))
     return d
 
@@ -232,19 +257,23 @@ def judge(ctx, case, tr, result):
     d = describe(case, tr)
     ctx.traces += 1
     ctx.evaluated((case["op"], case["ca"], case["n"], case["mbxout"], case["mbxin"], tuple(case["script"]),
+                   case.get("index"), case.get("sub"),
                    case.get("random", False) and tuple(case.get("data", ()))),
                   nontrivial=case["n"] > 4 or d["used_script"] != ["plain"] * len(d["used_script"]))
     if matched == length and not isinstance(inv, str):
         return True
     bad = tr["ev"][matched] if matched < length else None
+    d["requests"] = sum(1 for e in tr["ev"][:matched + 1] if e["ev"] == "c2s")
     d.update(rejected_at=matched, rejected_event=brief_event(bad),
              rejected_kind=bad["ev"] if bad else "invariant",
              events=[brief_event(e) for e in tr["ev"]][:12])
     if bad is None:
         reason = f"invariant violated: {inv}"
     elif bad["ev"] == "c2s":
-        reason = (f"{case['op']} of {case['n']} bytes (ca={case['ca']}, mailbox {case['mbxout']}/"
-                  f"{case['mbxin']}): request #{d['requests']} is not one a conformant client may send: "
+        reason = (f"{case['op']} of {case['n']} bytes at {case.get('index', INDEX):04X}:"
+                  f"{'CA' if case['ca'] else format(case.get('sub', SUB), '02X')} (mailbox {case['mbxout']}/"
+                  f"{case['mbxin']}; entries changed instead: {d['others_changed']}): request "
+                  f"#{d['requests']} is not one a conformant client may send: "
                   f"{d['rejected_event']}")
     elif bad["ev"] == "s2c":
         reason = f"simulated server left CoE.tla at event {matched}: {d['rejected_event']}"
@@ -278,7 +307,8 @@ def run(ctx):
     ctx.exhaustive = False
     ctx.extra["accepted_rejected"] = {f"{a}/{b}": v for (a, b), v in sorted(ok.items())}
     ctx.extra["scripts"] = len(scripts)
-    ctx.rule = ("grid of mailbox size pairs from {32,48,128,256} x value lengths 0..3 mailbox sizes "
+    ctx.rule = ("addresses (subindex 0 / 1 / 255 / others, several indices) rotated over a "
+                "grid of mailbox size pairs from {32,48,128,256} x value lengths 0..3 mailbox sizes "
                 "(all lengths for the small mailboxes, fragment-boundary lengths for the large) x "
                 "{upload, download} x {subindex, complete access} x {plain script, rotating "
                 "TLC-enumerated reply scripts} + random cases; non-trivial = value longer than 4 "
